@@ -1175,7 +1175,6 @@ impl Interpreter {
 
                             let mut vm = BytecodeVM::from_saved_state(
                                 order_suspension.state,
-                                JsValue::Object(self.global.clone()),
                                 vm_guard,
                                 &self.heap,
                             );
@@ -1189,7 +1188,6 @@ impl Interpreter {
                             let vm_guard = self.heap.create_guard();
                             let mut vm = BytecodeVM::from_saved_state(
                                 order_suspension.state,
-                                JsValue::Object(self.global.clone()),
                                 vm_guard,
                                 &self.heap,
                             );
@@ -1236,7 +1234,6 @@ impl Interpreter {
                                 let vm_guard = self.heap.create_guard();
                                 let mut vm = BytecodeVM::from_saved_state(
                                     ctx.state,
-                                    JsValue::Object(self.global.clone()),
                                     vm_guard,
                                     &self.heap,
                                 );
@@ -1247,7 +1244,6 @@ impl Interpreter {
                                 let vm_guard = self.heap.create_guard();
                                 let mut vm = BytecodeVM::from_saved_state(
                                     ctx.state,
-                                    JsValue::Object(self.global.clone()),
                                     vm_guard,
                                     &self.heap,
                                 );
@@ -3051,12 +3047,17 @@ impl Interpreter {
                 arguments: args.clone(),
                 new_target: JsValue::Undefined,
                 trampoline_stack: Vec::new(), // Generators run at top level
+                this_value: this_value.clone(),
+                exception_value: None,
+                saved_env_stack: Vec::new(),
+                current_constructor: None,
+                pending_completion: None,
             };
 
             // Create guard for the VM registers
             let vm_guard = self.heap.create_guard();
             let mut vm =
-                BytecodeVM::from_saved_state(saved_state, this_value.clone(), vm_guard, &self.heap);
+                BytecodeVM::from_saved_state(saved_state, vm_guard, &self.heap);
 
             // Check if we need to throw an exception (generator.throw())
             let throw_value = gen_state.borrow_mut().throw_value.take();
